@@ -1,12 +1,14 @@
 // Reader / writer rigs: every library-provided reader and writer behind one small interface, plus the
 // scripted, call-logging, fault-injecting probe reader/writer used for C10/C15/C16.
 #pragma once
+#include <functional>
 #include <sstream>
 #include <string>
 #include <vector>
 
 #include <nop/serializer.h>
 #include <nop/base/handle.h>
+#include <nop/base/reference_wrapper.h>
 #include <nop/base/table.h>
 #include <nop/utility/bounded_reader.h>
 #include <nop/utility/bounded_writer.h>
